@@ -1,6 +1,7 @@
 //! Support code for the generated one-step harnesses over the TagScanner state machine (DESIGN §3,
 //! C09, C06, C02). Child module of `parser::tag_scanner`. Harnesses are generated from /repo's DSL into
 //! `verif_kani_steps_gen.rs` on every run.
+// @requires src/parser/tree_builder_simulator/verif_kani.rs
 #![allow(dead_code)]
 use super::*;
 use crate::parser::lexer::{LexemeSink, NonTagContentLexeme, TagLexeme};
@@ -153,7 +154,7 @@ pub(crate) struct Step<const NB: usize> {
     pub pre_last_hash: LocalNameHash,
 }
 
-pub(crate) fn pre_step<T: Tables, const NB: usize>(sid: u16) -> Step<NB> {
+pub(crate) fn pre_step<T: Tables, const NB: usize>(sid: u16, foreign: bool) -> Step<NB> {
     let input: [u8; NB] = kani::any();
     let n: usize = kani::any();
     kani::assume(n <= NB);
@@ -161,7 +162,11 @@ pub(crate) fn pre_step<T: Tables, const NB: usize>(sid: u16) -> Step<NB> {
     let l = any_scanner(req, hold_ok, seq, &input[..n]);
     let ctx = ParserContext {
         output_sink: HintSink { hints: 0, last_is_end: false, last_is_hash: false, lex_after_hint: kani::any() },
-        tree_builder_simulator: TreeBuilderSimulator::new(false),
+        tree_builder_simulator: if foreign {
+            crate::parser::tree_builder_simulator::verif_kani::sim_with_stack(kani::any())
+        } else {
+            TreeBuilderSimulator::new(false)
+        },
         previously_consumed_byte_count: 0,
     };
     let pre_tag_start = l.tag_start;
@@ -198,6 +203,9 @@ pub(crate) fn post_step<T: Tables, const NB: usize>(st: Step<NB>, r: StateResult
             }
             assert!(l.ch_sequence_matching_start.is_none(), "[C09] no look-ahead is pending after a transition");
             assert!(inv(&l, nreq, nhold, nseq, input), "[C01,C09] the successor state's representation invariant holds");
+            if hints == 1 {
+                assert!(!l.is_in_end_tag, "[C06] the end-tag marker is reset when the tag name is complete");
+            }
             if gate && hints == 1 {
                 assert!(l.last_start_tag_name_hash == pre_last_hash, "[C03] end tag hint leaves the last start tag name alone");
             }
@@ -255,6 +263,7 @@ pub(crate) fn post_step<T: Tables, const NB: usize>(st: Step<NB>, r: StateResult
                         None => assert!(bm.pos < n && input[bm.pos] == b'<', "[C06] the lexer restarts at the '<' of the hinted tag"),
                     }
                     assert!(l.tag_start.is_none(), "[C09] the tag start is released when the tag name is complete");
+                    assert!(!l.is_in_end_tag, "[C06] the end-tag marker is reset when the tag name is complete, whatever the hand-over reason");
                 }
                 ActionError::RewritingError(_) => {
                     assert!(false, "[C15] no rewriting error without a failing sink");
